@@ -157,8 +157,108 @@ Proof.
   - apply Permutation_length_1_inv in PM. rewrite PM. reflexivity.
 Qed.
 
-(* ---- resolveImportVarConflicts: the renames commute when no qualifier is another one
-   followed by MoqParam; otherwise the order shows (finding D16), evaluated witness ---- *)
+(* ---- resolveImportVarConflicts: the renames commute unless one qualifier is another one
+   followed by MoqParam.  [rename_for_imports] performs them in list order; the Go code in
+   map order.  Under the condition the model checks before it commits to an order
+   (rename_order_sensitive = false) every order gives the same variables. ---- *)
+Definition mp (q : string) : string := q ++ "MoqParam".
+
+Lemma rename_step q vs :
+  (if has_var vs q then rename_first vs q (mp q) else vs) = rename_first vs q (mp q).
+Proof.
+  destruct (has_var vs q) eqn:H; [reflexivity|].
+  induction vs as [|v r IH]; [reflexivity|]. cbn [has_var existsb] in H. apply orb_false_iff in H.
+  destruct H as [H1 H2]. cbn [rename_first]. rewrite H1. f_equal. apply IH. exact H2.
+Qed.
+
+Lemma rename_for_imports_steps : forall quals vs,
+  rename_for_imports vs quals = fold_left (fun vs q => rename_first vs q (mp q)) quals vs.
+Proof.
+  induction quals as [|q r IH]; intros vs; cbn [rename_for_imports fold_left]; [reflexivity|].
+  fold (mp q). rewrite rename_step. apply IH.
+Qed.
+
+Definition named (vs : list var) : Prop := forall v, In v vs -> v_name v <> "".
+
+Lemma mp_nonempty q : mp q <> "".
+Proof. unfold mp. destruct q; discriminate. Qed.
+
+Lemma rename_first_named vs q : named vs -> named (rename_first vs q (mp q)).
+Proof.
+  unfold named. induction vs as [|v r IH]; intros N w I; [destruct I|]. cbn [rename_first] in I.
+  destruct (String.eqb (v_name v) q).
+  - destruct I as [E|I]; [subst w; cbn [v_name]; apply mp_nonempty|apply N; right; exact I].
+  - destruct I as [E|I]; [apply N; left; exact E|]. apply IH; [|exact I]. intros u Iu. apply N. right. exact Iu.
+Qed.
+
+Lemma rename_first_swap : forall vs x y,
+  named vs -> (x <> "" -> y <> mp x) -> (y <> "" -> x <> mp y) ->
+  rename_first (rename_first vs x (mp x)) y (mp y) = rename_first (rename_first vs y (mp y)) x (mp x).
+Proof.
+  intros vs x y N XY YX. destruct (String.eqb_spec x y) as [E|NE]; [subst y; reflexivity|].
+  induction vs as [|v r IH]; [reflexivity|].
+  assert (Nv : v_name v <> "") by (apply N; left; reflexivity).
+  assert (Nr : named r) by (intros u Iu; apply N; right; exact Iu).
+  cbn [rename_first].
+  destruct (String.eqb_spec (v_name v) x) as [Vx|Vx].
+  - (* v is called x *)
+    assert (x <> "") as X0 by congruence.
+    destruct (String.eqb_spec (v_name v) y) as [Vy|Vy]; [congruence|].
+    cbn [rename_first v_name].
+    destruct (String.eqb_spec (mp x) y) as [B|_]; [exfalso; apply (XY X0); symmetry; exact B|].
+    destruct (String.eqb_spec (v_name v) x) as [_|B]; [reflexivity|contradiction].
+  - destruct (String.eqb_spec (v_name v) y) as [Vy|Vy].
+    + assert (y <> "") as Y0 by congruence.
+      cbn [rename_first v_name].
+      destruct (String.eqb_spec (v_name v) y) as [_|B]; [|contradiction].
+      destruct (String.eqb_spec (mp y) x) as [B|_]; [exfalso; apply (YX Y0); symmetry; exact B|].
+      reflexivity.
+    + cbn [rename_first].
+      destruct (String.eqb_spec (v_name v) y) as [B|_]; [contradiction|].
+      destruct (String.eqb_spec (v_name v) x) as [B|_]; [contradiction|].
+      f_equal. apply IH. exact Nr.
+Qed.
+
+(* no qualifier is another (non-empty) one followed by MoqParam *)
+Definition independent (quals : list string) : Prop :=
+  forall a b, In a quals -> In b quals -> a <> "" -> b <> mp a.
+
+Lemma independent_of_check quals : rename_order_sensitive quals = false -> independent quals.
+Proof.
+  unfold rename_order_sensitive, independent. intros H a b Ia Ib A0 E.
+  apply orb_false_iff in H. destruct H as [H _].
+  assert (existsb (fun q => negb (String.eqb q "") && str_mem (q ++ "MoqParam") quals) quals = true) as T;
+    [|rewrite T in H; discriminate].
+  apply existsb_exists. exists a. split; [exact Ia|]. apply andb_true_iff. split.
+  - destruct (String.eqb_spec a ""); [contradiction|reflexivity].
+  - unfold str_mem. apply existsb_exists. exists b. split; [exact Ib|]. subst b. apply String.eqb_refl.
+Qed.
+
+Lemma renames_perm : forall q1 q2, Permutation q1 q2 ->
+  forall vs, named vs -> independent q1 ->
+  fold_left (fun vs q => rename_first vs q (mp q)) q1 vs =
+  fold_left (fun vs q => rename_first vs q (mp q)) q2 vs.
+Proof.
+  induction 1 as [|x l l' P IH|x y l|l l' l'' P1 IH1 P2 IH2]; intros vs N I.
+  - reflexivity.
+  - cbn [fold_left]. apply IH; [apply rename_first_named; exact N|].
+    intros a b Ia Ib. apply I; right; assumption.
+  - cbn [fold_left]. f_equal. apply rename_first_swap; [exact N| |].
+    + intros Y0. apply I; [left; reflexivity|right; left; reflexivity|exact Y0].
+    + intros X0. apply I; [right; left; reflexivity|left; reflexivity|exact X0].
+  - rewrite (IH1 vs N I). apply IH2; [exact N|].
+    intros a b Ia Ib. apply I; eapply Permutation_in; try (apply Permutation_sym; exact P1); assumption.
+Qed.
+
+Theorem C14_renames_order_free vs quals quals' :
+  rename_order_sensitive quals = false -> named vs -> Permutation quals quals' ->
+  rename_for_imports vs quals = rename_for_imports vs quals'.
+Proof.
+  intros S N P. rewrite !rename_for_imports_steps.
+  apply renames_perm; [exact P|exact N|apply independent_of_check; exact S].
+Qed.
+
+(* otherwise the order shows (finding D16), evaluated witness *)
 Example C14_renames_refuted :
   let vs := [mkVar "a" (TParam "x") []; mkVar "b" (TParam "x") []] in
   map v_name (rename_for_imports vs ["a"; "aMoqParam"]) <> map v_name (rename_for_imports vs ["aMoqParam"; "a"])
